@@ -237,3 +237,14 @@ func qname(f *types.Func) string {
 	}
 	return pkg + "." + f.Name()
 }
+
+// Text returns the emitted source text of a node.
+func (ep *EmittedPkg) Text(n ast.Node) string {
+	p, q := ep.Fset.Position(n.Pos()), ep.Fset.Position(n.End())
+	for _, ef := range ep.Files {
+		if ef.Name == p.Filename && p.Offset >= 0 && q.Offset <= len(ef.Src) {
+			return strings.Join(strings.Fields(ef.Src[p.Offset:q.Offset]), " ")
+		}
+	}
+	return ""
+}
